@@ -44,6 +44,7 @@ type world struct {
 	replicas []string
 	model    map[string]kv
 	cluster  bool
+	opt      rueidis.ClientOption
 }
 
 func (w *world) owner(key string) *fakeredis.Node {
@@ -130,6 +131,7 @@ func newWorld(kind string, cache bool, resp2 bool, seed int64) (*world, error) {
 	opt.DisableCache = !cache
 	opt.AlwaysRESP2 = resp2
 	opt.DisableRetry = true
+	w.opt = opt
 	c, err := rueidis.NewClient(opt)
 	if err != nil {
 		w.srv.Close()
@@ -137,6 +139,18 @@ func newWorld(kind string, cache bool, resp2 bool, seed int64) (*world, error) {
 	}
 	w.client = c
 	return w, nil
+}
+
+// reconnect replaces the client (its connections were killed by a "down" fault; a broken connection is only noticed
+// by the next command that uses it, which is not what this property is about).
+func (w *world) reconnect() error {
+	w.client.Close()
+	c, err := rueidis.NewClient(w.opt)
+	if err != nil {
+		return err
+	}
+	w.client = c
+	return nil
 }
 
 func (w *world) close() {
@@ -244,7 +258,7 @@ type fault struct {
 	rule  *fakeredis.Rule
 }
 
-const injected = "ERR injected-by-driver"
+const injected = "injected-by-driver" // RedisError.Error() drops the ERR prefix
 
 func (w *world) inject(rng *rand.Rand, kind string) fault {
 	f := fault{kind: kind}
@@ -270,7 +284,7 @@ func (w *world) inject(rng *rand.Rand, kind string) fault {
 			w.srv.KillAll(a)
 		}
 	case "err":
-		e := resp.Err(injected + " " + f.node)
+		e := resp.Err("ERR " + injected + " " + f.node)
 		nodes := f.nodes
 		f.rule = w.srv.Plan(&fakeredis.Rule{Name: "node-error", Match: func(c *fakeredis.Conn, a []string) bool {
 			if !nodes[c.NodeAddr()] {
@@ -294,6 +308,9 @@ func (w *world) heal(f fault) {
 			w.srv.Lock()
 			n.Down = false
 			w.srv.Unlock()
+		}
+		if err := w.reconnect(); err != nil {
+			panic("reconnect after heal: " + err.Error())
 		}
 	case "err":
 		w.srv.ClearPlan()
@@ -358,7 +375,7 @@ func TestC31(t *testing.T) {
 	}
 	cfgs := []wcfg{{"single", true, false}, {"single", false, true}, {"standalone", true, false}, {"standalone", false, false},
 		{"sentinel", true, false}, {"sentinel", false, true}, {"cluster", true, false}, {"cluster", false, false}, {"cluster", false, true}, {"cluster", true, false}}
-	perWorld := run.N(130, 4000)
+	perWorld := run.N(1000, 30000)
 	caseNo := 0
 	ctx := context.Background()
 	for wi, cfg := range cfgs {
